@@ -8,6 +8,7 @@ All inputs are `Fraction`s, so the real code stays exact unless `Poly`'s float z
 (a coefficient that is exactly zero is read back as `0.`): the impl side reports whether a float
 was seen and the comparison is exact otherwise.
 """
+import sys
 import common
 from common import err_kind, enc, encl, dec, decl, close, close_list
 from fractions import Fraction as F
@@ -35,6 +36,23 @@ ASSUMPTIONS = [
     "coefficients are exact rationals; float rounding inside the real code is only bounded by the "
     "1e-9 tolerance in the cases where Poly's float zero leaks in (flagged per case)",
 ]
+MANIFEST = {
+    "text": ("Lean 4 theorems, for every order and any field: parcor as coded inverts the step-up recursion and "
+             "step-up rebuilds the filter (whenever leading coefficient = den[0]); ParCorError iff some yielded "
+             "k^2 = 1 (all inputs); levinson_durbin as coded = step-up of its reflection coefficients with "
+             "error = r0*prod(1-k^2); gain invariance of the specification and of the repaired code, and its "
+             "NEGATION for the code as it stands (defect D3); Schur-Cohn: all |k|<1 => all poles strictly inside "
+             "the unit circle for every order, poles on/outside => verdict False for the constructed family, "
+             "converse for orders 1 and 2 (general converse PENDING, carried by the tie)"),
+    "note": ("Trusted: Lean kernel, axioms propext/Classical.choice/Quot.sound, the Python correspondence harness. "
+             "The model is hand written (ZFilter/Poly arithmetic abstracted to a window of Laurent coefficients "
+             "over a field) and validated differentially. The converse Schur-Cohn direction for order >= 3 is not "
+             "proved (no Rouche in Mathlib v4.33): there the evidence is the differential run of the Lean verdict "
+             "against pole sets known by construction."),
+    "design_ref": "DESIGN.md section 7, C11; section 8 D3; section 9",
+}
+if hasattr(sys, "set_int_max_str_digits"):
+    sys.set_int_max_str_digits(0)      # a mutated recursion may blow the Fractions up; still report it
 TOL = F(1, 10**9)
 MARGIN = F(1, 10**6)
 
@@ -368,7 +386,7 @@ def compare(c, io, drv):
             # rebuilding by step-up returns the (monic) filter
             reb = step_up(decl(io["ks"])[::-1])
             if not close_list(reb, decl(drv["monic"] if e == "parcor" else drv["filter"]), tol):
-                out.append(("spec", "step-up of the yielded coefficients %r does not rebuild the filter" % (encl(reb),)))
+                out.append(("spec", "step-up of the yielded coefficients does not rebuild the filter: %s" % (str(encl(reb))[:200],)))
         return out
     if e in ("stable", "stable_den"):
         if "err" in io:
